@@ -153,7 +153,10 @@ func randomWalk(t *rapid.T, root V, maxSteps int) []tfSeg {
 		default:
 			return segs
 		}
-		if len(segs) >= 1 && oneIn(t, 4, "stop") {
+		if len(segs) >= 1 && maxSteps <= 8 && oneIn(t, 4, "stop") {
+			return segs
+		}
+		if maxSteps > 8 && oneIn(t, 40, "stop") {
 			return segs
 		}
 	}
@@ -306,15 +309,28 @@ func genC10(t *rapid.T) *C10Case {
 			root.O = append(root.O, Pair{k, GenValue(t, cfg, 4)})
 		}
 	}
+	maxSteps := 8
+	if oneIn(t, 12, "deepchain") {
+		// nesting (and paths) beyond any plausible depth guard
+		chainCfg := cfg
+		chainCfg.LongLists = false
+		inner := GenChain(t, chainCfg, 70)
+		if root.K == KList {
+			root.L = append([]V{inner}, root.L...)
+		} else if _, dup := root.Field("chain"); !dup {
+			root.O = append([]Pair{{"chain", inner}}, root.O...)
+		}
+		maxSteps = 80
+	}
 	switch class {
 	case 0:
-		segs := randomWalk(t, root, 8)
+		segs := randomWalk(t, root, maxSteps)
 		if len(segs) == 0 {
 			return &C10Case{Root: root, Path: ".a", Class: "resolvable_or_missing"}
 		}
 		return &C10Case{Root: root, Path: joinTF(segs), Class: "resolvable"}
 	case 1:
-		segs := randomWalk(t, root, 8)
+		segs := randomWalk(t, root, maxSteps)
 		p, kind := corruptPath(t, root, segs)
 		return &C10Case{Root: root, Path: p, Class: "corrupt." + kind}
 	}
